@@ -452,6 +452,12 @@ def longOpt (g : G) (w : Str) (next : Option Str) : Step :=
         | .done g' .ok _ => .cont g' false
         | .done g' st m => .stop g' st m 1
 
+/-- one option element of argv: `--long…` goes to `process_longopt`, anything else to `process_stdopt` -/
+def optStep (g : G) (w : Str) (next : Option Str) : Step :=
+  match w with
+  | '-' :: '-' :: _ => longOpt g w next
+  | _ => stdLoop g (w.drop 1) next
+
 /-- is this argv element the end of the options (`esl_getopts` returns `eslEOD` without consuming it)? -/
 def isArgWord (w : Str) : Bool := !startsWithDash w || w == ['-']
 
@@ -464,10 +470,7 @@ def cmdLoop (g : G) : Nat → List Str → Bool → R
     if isArgWord w then .done { g with optind := k } .ok false
     else if w == ['-', '-'] then .done { g with optind := k + 1 } .ok false
     else
-      let step := match w with
-        | '-' :: '-' :: _ => longOpt g w tl.head?
-        | _ => stdLoop g (w.drop 1) tl.head?
-      match step with
+      match optStep g w tl.head? with
       | .fault => .fault
       | .stop g' st m adv => .done { g' with optind := k + adv } st m
       | .cont g' extra => cmdLoop g' (k + 1 + (if extra then 1 else 0)) tl extra
@@ -519,24 +522,27 @@ def fileLinesAux : Str → Str → List Str
 
 def fileLines (content : Str) : List Str := fileLinesAux content []
 
+/-- the three tokens `esl_opt_ProcessConfigfile` takes from a line: option name, argument, rest-of-line token -/
+def cfgTokens (line : Str) : Option Str × Option Str × Option Str :=
+  let (optname, s) := strtok line wsDelim
+  let (optarg, s) := if s.head? == some '"' then strtok s ['"'] else strtok s wsDelim
+  let (comment, _) := strtok s wsDelim
+  (optname, optarg, comment)
+
 /-- one data line of a config file; `none` = line skipped -/
 def cfgLine (g : G) (line : Str) : Option R :=
-  let (optname, s) := strtok line wsDelim
-  match optname with
-  | none => none
-  | some name =>
+  match cfgTokens line with
+  | (none, _, _) => none
+  | (some name, optarg, comment) =>
     if name.head? == some '#' then none
     else if name.head? != some '-' then some (.done g .esyntax true)
-    else
-      let (optarg, s) := if s.head? == some '"' then strtok s ['"'] else strtok s wsDelim
-      let (comment, _) := strtok s wsDelim
-      if comment.isSome && (comment.bind List.head?) != some '#' then some (.done g .esyntax true)
-      else match optidxExactly g.opts name with
-        | none => some (.done g .esyntax true)
-        | some i =>
-          -- fix: an option that takes an argument must have one on its line
-          if (g.opt i).type != 0 && optarg.isNone then some (.done g .esyntax true)
-          else some (setOption g i optarg (byCfgfile + g.nfiles))
+    else if comment.isSome && (comment.bind List.head?) != some '#' then some (.done g .esyntax true)
+    else match optidxExactly g.opts name with
+      | none => some (.done g .esyntax true)
+      | some i =>
+        -- fix 8d4fde4: an option that takes an argument must have one on its line
+        if (g.opt i).type != 0 && optarg.isNone then some (.done g .esyntax true)
+        else some (setOption g i optarg (byCfgfile + g.nfiles))
 
 def cfgLoop (g : G) : List Str → R
   | [] => .done { g with nfiles := g.nfiles + 1 } .ok false
